@@ -191,12 +191,65 @@ def lookup_order(F, rep):
            "the first stack entry with an equal name is returned", fn["sp"])
     rep.ob("LOOKUP", "Resolver::lookup|stack-before-globals", loop_i is not None and glob_i is not None and loop_i < glob_i,
            "globals of the file are consulted only after the stack", fn["sp"])
+    # an unqualified name is resolved by lookup() - nowhere else may the *file's own* table answer for a variable: a direct
+    # lookup_global(span.file_id, name) that yields a variable skips the scope stack, so a global of that name wins over the
+    # local / parameter that shadows it (`fn Point: int do x: Point = ..` would take the module's Point)
+    n_direct = 0
+    bad = []
+    for f2 in F.fns_in(R):
+        if f2["_path"] in (R + "lookup", R + "lookup_global"):
+            continue
+        fl2 = Flow(f2, fn_body(f2))
+        for c in nodes(fn_body(f2)):
+            if c.get("k") not in ("Call", "MethodCall") or callee(c) != R + "lookup_global":
+                continue
+            n_direct += 1
+            a0 = c["args"][0]
+            t0 = fl2.trace(a0) if peel(a0).get("k") == "Path" else a0
+            t0 = peel(t0 if isinstance(t0, dict) else a0)
+            own_file = t0.get("k") == "Field" and t0["name"] == "file_id"
+            if not own_file:
+                continue
+            # is a variable taken from the answer?
+            yields_var = False
+            for m in nodes(fn_body(f2), "Match"):
+                if any(x is c for x in nodes(m["scrut"])):
+                    for arm_ in m["arms"]:
+                        for a_ in pat_alternatives(arm_["pat"]):
+                            if any((x.get("path") or "").endswith("Name::Name") and pat_bindings(x) for x in _pats(a_)):
+                                yields_var = True
+            if yields_var:
+                bad.append((last(f2["_path"], 2), c))
+    rep.ob("LOOKUP", "unqualified-names-go-through-lookup", not bad,
+           "of the %d direct reads of a module table outside lookup(), none takes a variable from the file's own table" % n_direct if not bad else
+           "%s takes a variable straight from the file's own table of globals (lookup_global(<span>.file_id, name)), without the "
+           "scope stack: a local, parameter or case binding of that name no longer shadows the global" % bad[0][0],
+           line_of(bad[0][1]) if bad else None)
+    rep.floor("LOOKUP", "direct reads of a module table", n_direct, 5)
     # lookup_global must read the namespace of the given namespace id only
     lg = F.fn(R + "lookup_global")
     rep.analysed(lg)
     its = [n for n in nodes(fn_body(lg)) if n.get("k") == "ForLoop" or (n.get("k") == "MethodCall" and n["m"] in ("iter", "values", "keys"))]
     rep.ob("LOOKUP", "Resolver::lookup_global|single-namespace", not its,
            "lookup_global indexes one namespace and does not scan others", lg["sp"])
+
+
+def _pats(p):
+    """a pattern and all its sub-patterns"""
+    out, todo = [], [p]
+    while todo:
+        q = todo.pop()
+        if not isinstance(q, dict):
+            continue
+        out.append(q)
+        for k_ in ("pats", "fields"):
+            for y in q.get(k_) or []:
+                todo.append(y.get("pat") if isinstance(y, dict) and "pat" in y and "k" not in y else y)
+        if isinstance(q.get("pat"), dict):
+            todo.append(q["pat"])
+        if isinstance(q.get("sub"), dict):
+            todo.append(q["sub"])
+    return out
 
 
 def qualified_lookup(F, rep, rule="LOOKUP"):
